@@ -23,6 +23,34 @@ from onnx_ir.traversal import RecursiveGraphIterator
 KINDS = ("dls", "graph", "func")
 
 
+class StepTimeout(Exception):
+    """A public call of the library did not return ("always terminates" is part of C11)."""
+
+
+class _Lib:
+    """Marks the regions in which the harness is inside a call of the library: the watchdog of lsreplay
+    interrupts only those (outcome err:StepTimeout of that call)."""
+
+    inside = False
+    timeouts = 0     # calls interrupted so far in this process
+
+    def __enter__(self):
+        _Lib.inside = True
+
+    def __exit__(self, *a):
+        _Lib.inside = False
+        return False
+
+
+LIB = _Lib()
+
+
+def on_alarm(_sig, _frm):
+    if _Lib.inside:
+        _Lib.timeouts += 1
+        raise StepTimeout()
+
+
 class Tok:
     __slots__ = ("i",)
 
@@ -56,42 +84,59 @@ class _SeqTarget:
 
     nelem: int
 
+    _t0 = 0
+
     def ident(self, obj) -> int:
         return self.ids.get(id(obj), -1)
+
+    def dead(self) -> bool:
+        return _Lib.timeouts != self._t0
 
     def observe(self, x=None):
         """(list, len, items, negitems, member, oob) read through the public protocol only."""
         x = self.x if x is None else x
+        if _Lib.timeouts != self._t0:     # a call of this behaviour never returned: nothing more to learn from the object
+            return [-9], -1, [], [], [], 0
         try:
-            lst = [self.ident(o) for o in x]
+            with LIB:
+                lst = []
+                for o in x:
+                    lst.append(self.ident(o))
+                    if len(lst) > 1000:
+                        raise RuntimeError("endless iteration")
         except Exception as e:  # noqa: BLE001
             lst = ["err:" + type(e).__name__]
         try:
-            n = len(x)
+            with LIB:
+                n = len(x)
         except Exception:  # noqa: BLE001
             n = -1
         m = len(lst)
         items, neg = [], []
         for i in range(m):
             try:
-                items.append(self.ident(x[i]))
+                with LIB:
+                    items.append(self.ident(x[i]))
             except Exception:  # noqa: BLE001
                 items.append(-2)
             try:
-                neg.append(self.ident(x[-i - 1]))
+                with LIB:
+                    neg.append(self.ident(x[-i - 1]))
             except Exception:  # noqa: BLE001
                 neg.append(-2)
         mem = []
         for k in range(1, self.nelem + 1):
             try:
-                mem.append(1 if self.el[k] in x else 0)
+                with LIB:
+                    mem.append(1 if self.el[k] in x else 0)
             except Exception:  # noqa: BLE001
                 mem.append(-1)
         oob = 1
         for i in (max(n, m), -max(n, m) - 1):
             try:
-                x[i]
-                oob = 0
+                with LIB:
+                    x[i]
+                    oob = 0
             except IndexError:
                 pass
             except Exception:  # noqa: BLE001
@@ -100,7 +145,8 @@ class _SeqTarget:
 
     def step(self, c: int):
         try:
-            o = next(self.cur[c - 1])
+            with LIB:
+                o = next(self.cur[c - 1])
         except StopIteration:
             return "stop", 0
         except Exception as e:  # noqa: BLE001
@@ -113,6 +159,7 @@ class DlsTarget(_SeqTarget):
 
     def __init__(self, nelem, init, dirs, deps=None):
         self.nelem = nelem
+        self._t0 = _Lib.timeouts
         self.el = {k: Tok(k) for k in range(1, nelem + 1)}
         self.ids = {id(o): k for k, o in self.el.items()}
         self.x = DoublyLinkedSet([self.el[k] for k in init])
@@ -120,21 +167,24 @@ class DlsTarget(_SeqTarget):
 
     def apply(self, op, a, es, c):
         E = self.el
+        if self.dead():
+            return "err:StepTimeout", 0
         if op == "ST":
             return self.step(c)
         try:
-            if op == "AP":
-                self.x.append(E[a])
-            elif op in ("EX", "SO"):
-                self.x.extend([E[k] for k in es])
-            elif op == "IA":
-                self.x.insert_after(E[a], [E[k] for k in es])
-            elif op == "IB":
-                self.x.insert_before(E[a], [E[k] for k in es])
-            elif op == "RM":
-                self.x.remove(E[a])
-            else:
-                raise AssertionError(op)
+            with LIB:
+                if op == "AP":
+                    self.x.append(E[a])
+                elif op in ("EX", "SO"):
+                    self.x.extend([E[k] for k in es])
+                elif op == "IA":
+                    self.x.insert_after(E[a], [E[k] for k in es])
+                elif op == "IB":
+                    self.x.insert_before(E[a], [E[k] for k in es])
+                elif op == "RM":
+                    self.x.remove(E[a])
+                else:
+                    raise AssertionError(op)
         except Exception as e:  # noqa: BLE001
             return _classify(e), 0
         return "ok", 0
@@ -146,6 +196,7 @@ class GraphTarget(_SeqTarget):
     def __init__(self, nelem, init, dirs, kind="graph", deps=None):
         self.kind = kind
         self.nelem = nelem
+        self._t0 = _Lib.timeouts
         nodes = make_nodes(nelem, "n", deps)
         self.el = {k: nodes[k - 1] for k in range(1, nelem + 1)}
         self.ids = {id(o): k for k, o in self.el.items()}
@@ -155,26 +206,29 @@ class GraphTarget(_SeqTarget):
 
     def apply(self, op, a, es, c):
         E, x = self.el, self.x
+        if self.dead():
+            return "err:StepTimeout", 0
         if op == "ST":
             return self.step(c)
         try:
-            if op == "AP":
-                x.append(E[a])
-            elif op == "EX":
-                x.extend([E[k] for k in es])
-            elif op == "SO":
-                x.sort()
-            elif op in ("IA", "IB"):
-                new = [E[k] for k in es]
-                arg = new[0] if (len(new) == 1 and a % 2 == 1) else new   # a bare Node is accepted too
-                if self.kind == "func":
-                    (E[a].append if op == "IA" else E[a].prepend)(arg)
+            with LIB:
+                if op == "AP":
+                    x.append(E[a])
+                elif op == "EX":
+                    x.extend([E[k] for k in es])
+                elif op == "SO":
+                    x.sort()
+                elif op in ("IA", "IB"):
+                    new = [E[k] for k in es]
+                    arg = new[0] if (len(new) == 1 and a % 2 == 1) else new   # a bare Node is accepted too
+                    if self.kind == "func":
+                        (E[a].append if op == "IA" else E[a].prepend)(arg)
+                    else:
+                        (x.insert_after if op == "IA" else x.insert_before)(E[a], arg)
+                elif op == "RM":
+                    x.remove(E[a])
                 else:
-                    (x.insert_after if op == "IA" else x.insert_before)(E[a], arg)
-            elif op == "RM":
-                x.remove(E[a])
-            else:
-                raise AssertionError(op)
+                    raise AssertionError(op)
         except Exception as e:  # noqa: BLE001
             return _classify(e), 0
         return "ok", 0
@@ -194,6 +248,7 @@ class RecTarget(_SeqTarget):
 
     def __init__(self, nelem, init_o, init_i, d, via_all_nodes=False):
         self.nelem = nelem
+        self._t0 = _Lib.timeouts
         inner = make_nodes(nelem, "i")
         self.gi = ir.Graph(inputs=[], outputs=[], nodes=[inner[k - 1] for k in init_i], name="inner")
         outer = make_nodes(nelem, "o", host_attr=ir.AttrGraph("body", self.gi))
@@ -214,9 +269,12 @@ class RecTarget(_SeqTarget):
         return out
 
     def apply(self, op, g, a, es):
+        if self.dead():
+            return "err:StepTimeout", 0, 0
         if op == "ST":
             try:
-                o = next(self.it)
+                with LIB:
+                    o = next(self.it)
             except StopIteration:
                 return "stop", 0, 0
             except Exception as e:  # noqa: BLE001
@@ -228,20 +286,21 @@ class RecTarget(_SeqTarget):
             return "yield", 0, -1
         E, x = self.els[g], self.gs[g]
         try:
-            if op == "AP":
-                x.append(E[a])
-            elif op == "EX":
-                x.extend([E[k] for k in es])
-            elif op == "SO":
-                self.go.sort()
-            elif op == "IA":
-                x.insert_after(E[a], [E[k] for k in es])
-            elif op == "IB":
-                x.insert_before(E[a], [E[k] for k in es])
-            elif op == "RM":
-                x.remove(E[a])
-            else:
-                raise AssertionError(op)
+            with LIB:
+                if op == "AP":
+                    x.append(E[a])
+                elif op == "EX":
+                    x.extend([E[k] for k in es])
+                elif op == "SO":
+                    self.go.sort()
+                elif op == "IA":
+                    x.insert_after(E[a], [E[k] for k in es])
+                elif op == "IB":
+                    x.insert_before(E[a], [E[k] for k in es])
+                elif op == "RM":
+                    x.remove(E[a])
+                else:
+                    raise AssertionError(op)
         except Exception as e:  # noqa: BLE001
             return _classify(e), 0, 0
         return "ok", 0, 0
